@@ -1520,6 +1520,24 @@ int __wrap_sigaction(int signum, const struct sigaction *act, struct sigaction *
 	return __real_sigaction(signum, &sa, old);
 }
 
+/* called from the harness watchdog: what the quiescence account looked like when the case was given up */
+void vt_debug_dump(void)
+{
+	char buf[256];
+	int i, n;
+	n = snprintf(buf, sizeof(buf), "NOTE wd: shim running=%d ext_pending=%d epoch=%llu nslots=%d nstim=%d V=%lld\n",
+		     (int)running, (int)ext_pending, (unsigned long long)epoch, (int)nslots, nstim, (long long)V);
+	if (__real_write(1, buf, n) < 0) {}
+	for (i = 0; i < nslots && i < 24; i++) {
+		if (thr[i].state == T_FREE)
+			continue;
+		n = snprintf(buf, sizeof(buf), "NOTE wd: shim slot %d tid=%d state=%d confirmed=%llu nwaits=%llu deadline=%lld wait_m=%p has_pth=%d\n",
+			     i, (int)thr[i].tid, (int)thr[i].state, (unsigned long long)thr[i].confirmed, (unsigned long long)thr[i].nwaits,
+			     (long long)thr[i].deadline, (void *)thr[i].wait_m, (int)thr[i].has_pth);
+		if (__real_write(1, buf, n) < 0) {}
+	}
+}
+
 /* ---- init -------------------------------------------------------------------------- */
 void vt_init(void)
 {
